@@ -285,10 +285,18 @@ static void exhaustive_inplace_auto(uint64_t N) {
 // vector and big wrappers: sampled p, limb vectors, both module types; coupled with composition checks
 static void wrappers(uint64_t N, unsigned reps) {
   for (unsigned rep = 0; rep < reps; rep++) {
-    for (int mt = 0; mt < 2; mt++) {
-      if (!case_begin("vec_wrappers|rot+auto+compose", "N=%" PRIu64 " module=%s rep=%u", N, mt ? "NTT120" : "FFT64", rep)) continue;
+    for (int mt = 0; mt < 3; mt++) {
+      // mt 0: FFT64 module created with all CPU features, 1: NTT120 module (exists behind the avx2 gate only),
+      // 2: FFT64 module created under the generic-C dispatch (its function table is filled by other code)
+      const int generic = mt == 2;
+      if (generic) mt = 0;
+      if (!case_begin(generic ? "vec_wrappers|rot+auto+compose,generic" : "vec_wrappers|rot+auto+compose", "N=%" PRIu64 " module=%s rep=%u", N, mt ? "NTT120" : "FFT64", rep)) {
+        if (generic) mt = 2;
+        continue;
+      }
       rng_t* r = crng();
-      const MODULE* mod = get_module(N, mt ? NTT120 : FFT64, 1);
+      const MODULE* mod = get_module(N, mt ? NTT120 : FFT64, generic ? DISP_GENERIC : DISP_NATIVE);
+      cntf("wrapper_dispatch:%s", 1, generic ? "generic" : "native");
       uint64_t size = (uint64_t)rng_range(r, 1, 3);
       uint64_t sl = stride_choice(N, (unsigned)rng_range(r, 0, 3));
       zvec_t a, b, c;
@@ -297,7 +305,8 @@ static void wrappers(uint64_t N, unsigned reps) {
       zvec_alloc(&c, N, size, sl, 0);
       for (uint64_t l = 0; l < size; l++)
         for (uint64_t i = 0; i < N; i++) zvec_limb(&a, l)[i] = (int64_t)(l * N + i + 1);
-      int64_t p = far_rep(r, N, (uint64_t)rng_range(r, 0, 2 * (int64_t)N - 1), (int)(rep & 3));
+      // every fifth repetition: p a multiple of 2N (identity map; 0 and far representatives)
+      int64_t p = far_rep(r, N, rep % 5 == 4 ? 0 : (uint64_t)rng_range(r, 0, 2 * (int64_t)N - 1), (int)(rep & 3));
       int64_t q = far_rep(r, N, (uint64_t)rng_range(r, 0, 2 * (int64_t)N - 1), (int)((rep >> 2) & 3));
       int64_t* exp = malloc(N * 8);
       int64_t* exp2 = malloc(N * 8);
@@ -412,6 +421,7 @@ static void wrappers(uint64_t N, unsigned reps) {
       zvec_free(&b);
       zvec_free(&c);
       case_end(1);
+      if (generic) mt = 2;
     }
   }
 }
